@@ -296,6 +296,8 @@ def _check_bounds_written(ctx, rt: FuncInfo) -> None:
             raise AnalysisError("C11.fixtype: _reaction_to_dict did not return a dict")
         for key, val in (("lower_bound", lb), ("upper_bound", ub)):
             got = out.get(key, "<missing>")
+            if type(got).__name__ == "Opaque":
+                raise AnalysisError(f"C11.fixtype: _reaction_to_dict: the value written for {key} could not be evaluated ({got!r})")
             finite = not (isinstance(val, float) and (val != val or val in (float("inf"), float("-inf"))))
             if finite and not (isinstance(got, (int, float)) and not isinstance(got, bool) and got == val):
                 problems.append(f"{key}={val!r} is written as {got!r}")
@@ -346,6 +348,8 @@ def check_fixtype(ctx) -> None:
             raise AnalysisError(f"C11.fixtype: _fix_type cannot be evaluated on {label}: {exc}")
         if isinstance(got, dict):
             got = dict(got)
+        if "<opaque" in repr(got):
+            raise AnalysisError(f"C11.fixtype: _fix_type on {label} could not be evaluated ({got!r})")
         if got != want:
             problems.append(f"{label}: {value!r} -> {got!r} (expected {want!r})")
     if problems:
@@ -402,6 +406,36 @@ def _check_allow_nan(ctx) -> None:
                 bad.append(f"{kw or 'default'}: the serialiser is called with allow_nan={opts.get('allow_nan', 'left at its default (True)')}: NaN/Infinity tokens produce a document other JSON readers reject")
             if opts.get("ensure_ascii", None) is not False:
                 bad.append(f"{kw or 'default'}: the caller's keyword arguments are not passed on")
+            if opts.get("default") is not None:
+                # a hook for the values json cannot represent (numpy scalars): what it returns is what is stored
+                hook = opts["default"]
+
+                class _Scalar(_File):
+                    def item(self):
+                        return 2
+
+                    def __str__(self):
+                        return "2"
+
+                    __repr__ = __str__
+
+                    def __int__(self):
+                        return 2
+
+                    def __float__(self):
+                        return 2.0
+
+                it.native = tuple(it.native) + (_Scalar,)
+                if type(hook).__name__ == "Opaque" and getattr(hook, "label", "") in ("str", "repr", "int", "float"):
+                    hook = {"str": str, "repr": repr, "int": int, "float": float}[hook.label]  # a builtin handed over by name
+                try:
+                    stored = hook(_Scalar()) if callable(hook) else it.call_value(hook, [_Scalar()], {}, None, fn.node)
+                except _ER:
+                    stored = None  # the hook refuses: nothing is saved
+                except _U as exc:
+                    raise AnalysisError(f"C11.fixtype: the `default` hook of {fname} cannot be evaluated: {exc}")
+                if isinstance(stored, str):
+                    bad.append(f"{kw or 'default'}: the serialiser gets a `default` hook that turns a value json cannot represent (a numpy integer 2) into the text {stored!r}: the file is written, and the reader returns a string where the model had a number (a coefficient \"-1\" fails in the solver, a charge comes back as text)")
             if not (isinstance(obj, dict) and obj.get("sort") is True and "version" in obj):
                 bad.append(f"{kw or 'default'}: the document is not model_to_dict(model, sort=sort) plus the version key")
         if bad:
@@ -545,7 +579,97 @@ def check_id_reassign(ctx) -> None:
         ctx.ok("C11.variants", fn, "id setter", f"{n} cases: re-assigning the stored identifier (None included) is accepted and changes nothing (evaluated)")
 
 
+def check_exact_numbers(ctx) -> None:
+    """The writers of the dict / JSON / YAML formats hand numbers to the library (repr: the shortest text that reads
+    back as the same double). A number turned into text by the package itself with a precision below 17 significant
+    digits (`f"{x:.15g}"`, `"%.6g" % x`, `format(x, ".10e")`), with a fixed number of decimals, or rounded (`round(x,
+    n)`) comes back as another number. Rule: no such conversion in cobra.io.dict / json / yaml outside messages
+    (raise, warn, logging). The precision is resolved through constants (`sys.float_info.dig` is 15)."""
+    import re as _re
+
+    prog = ctx.prog
+    known = {"sys.float_info.dig": 15, "float_info.dig": 15, "sys.float_info.mant_dig": 53, "DBL_DIG": 15}
+    spec_re = _re.compile(r"\.(\d+)([gGeEfF%])")
+
+    def spec_text(node) -> Optional[str]:
+        if node is None:
+            return ""
+        if isinstance(node, ast.Constant) and isinstance(node.value, str):
+            return node.value
+        if isinstance(node, ast.JoinedStr):
+            out = ""
+            for v in node.values:
+                if isinstance(v, ast.Constant):
+                    out += str(v.value)
+                elif isinstance(v, ast.FormattedValue):
+                    t = norm(v.value)
+                    if t in known:
+                        out += str(known[t])
+                    elif isinstance(v.value, ast.Constant):
+                        out += str(v.value.value)
+                    else:
+                        return None
+            return out
+        return None
+
+    def lossy(spec: Optional[str]) -> Optional[str]:
+        if spec is None:
+            return None
+        m = spec_re.search(spec)
+        if not m:
+            if spec.strip() and spec.strip()[-1:] in "fFeEgG%" and "." not in spec:
+                return f"the format `{spec}` keeps 6 digits"
+            return None
+        digits, kind = int(m.group(1)), m.group(2)
+        if kind in "fF%":
+            return f"the format `{spec}` keeps {digits} decimals"
+        if (kind in "gG" and digits < 17) or (kind in "eE" and digits < 16):
+            return f"the format `{spec}` keeps {digits if kind in 'gG' else digits + 1} significant digits, a double needs up to 17"
+        return None
+
+    scanned = 0
+    for mod in ("cobra.io.dict", "cobra.io.json", "cobra.io.yaml"):
+        try:
+            unit = prog.unit(mod)
+        except Exception:  # noqa: BLE001
+            raise AnalysisError(f"C11.exact: module {mod} not found")
+        message_nodes = set()
+        for n in ast.walk(unit.tree):
+            if isinstance(n, ast.Raise) or (isinstance(n, ast.Call) and norm(n.func).split(".")[-1] in ("warn", "warning", "info", "debug", "error", "critical", "exception", "print")):
+                message_nodes.update(id(x) for x in ast.walk(n))
+        funcs = [f for f in prog.all_funcs() if f.unit is unit]
+        scanned += len(funcs) + 1
+        for n in ast.walk(unit.tree):
+            if id(n) in message_nodes:
+                continue
+            why = None
+            if isinstance(n, ast.FormattedValue) and n.format_spec is not None:
+                st = spec_text(n.format_spec)
+                why = lossy(st) if st is not None else f"a format `{norm(n.format_spec, 40)}` that cannot be resolved"
+            elif isinstance(n, ast.Call) and isinstance(n.func, ast.Name) and n.func.id == "format" and len(n.args) == 2:
+                why = lossy(spec_text(n.args[1]))
+            elif isinstance(n, ast.Call) and isinstance(n.func, ast.Attribute) and n.func.attr == "format" and isinstance(n.func.value, ast.Constant) and isinstance(n.func.value.value, str):
+                for spec in _re.findall(r"\{[^{}:]*:([^{}]*)\}", n.func.value.value):
+                    why = why or lossy(spec)
+            elif isinstance(n, ast.BinOp) and isinstance(n.op, ast.Mod) and isinstance(n.left, ast.Constant) and isinstance(n.left.value, str):
+                for m_ in _re.finditer(r"%[-+ #0]*\d*(\.\d+)?([gGeEfF])", n.left.value):
+                    why = why or lossy((m_.group(1) or "") + m_.group(2))
+            elif isinstance(n, ast.Call) and norm(n.func).split(".")[-1] in ("round", "around", "round_") and n.args:
+                why = f"`{norm(n, 50)}` rounds"
+            if why:
+                owner = next((f for f in funcs if any(x is n for x in ast.walk(f.node))), None)
+                ctx.bad("C11.exact", owner or funcs[0], n, f"{mod.split('.')[-1]}: a number is turned into text by the package itself - {why}: the value that is read back differs from the one the model held (0.1 + 0.2, 1/3, 1000/3 ...); the library's own number output (repr) reads back exactly")
+    fn = prog.func("cobra.io.dict", "_fix_type")
+    ctx.ok("C11.exact", fn, "numbers are written by the library", f"{scanned} functions and module bodies of cobra.io.dict / json / yaml: no number is formatted with a precision or rounded outside messages")
+
+
 def run(ctx) -> None:
+    ctx.rule("C11.exact", "T2: the writers never turn a number into text with fewer than 17 significant digits (format specs resolved through constants), nor round it", floor=1)
+    ctx.guard(check_exact_numbers, ctx)
+    from . import replayform as _rp
+
+    ctx.rule("C02.effect", "bounded evaluation: what a reaction reports as its objective coefficient (the number the writers store) is what the objective holds (shared with C02)", floor=1)
+    ctx.guard(_rp.check_effects, ctx, "C02.effect")
     ctx.rule("C11.keys", "T7: writer/reader key tables agree and cover the attributes the property lists", floor=15)
     ctx.rule("C11.direction", "T7: objective direction is serialised", floor=1)
     ctx.rule("C11.bounds", "T6/finite domain: bounds are loaded atomically and a stored 0 stays 0", floor=2)
